@@ -218,6 +218,27 @@ fn field_layer(ctx: &mut Ctx) {
             if big(&u256_bits_and(&la, &lb)) != (a & b) {
                 f.ctx.violation("u256_bits_and:wrong", json!({"a": h(&la), "b": h(&lb)}));
             }
+            // 512-bit add / sub on (a||b) and (b||m): limbs little-endian
+            let big8 = |x: &[u64; 8]| -> BigUint {
+                let mut v = BigUint::zero();
+                for k in (0..8).rev() {
+                    v = (v << 64) + x[k];
+                }
+                v
+            };
+            let x8: [u64; 8] = [la[0], la[1], la[2], la[3], lb[0], lb[1], lb[2], lb[3]];
+            let y8: [u64; 8] = [lb[0], lb[1], lb[2], lb[3], m[4], m[5], m[6], m[7]];
+            let two512: BigUint = BigUint::one() << 512;
+            let (s8, c8) = u512_add(&x8, &y8);
+            let (d8, b8) = u512_sub(&x8, &y8);
+            let (xv, yv) = (big8(&x8), big8(&y8));
+            f.ctx.class("u512_primitives");
+            if big8(&s8) != (&xv + &yv) % &two512 || c8 != (&xv + &yv >= two512) {
+                f.ctx.violation("u512_add:wrong", json!({"a": h(&la), "b": h(&lb)}));
+            }
+            if big8(&d8) != (&two512 + &xv - &yv) % &two512 || b8 != (xv < yv) {
+                f.ctx.violation("u512_sub:wrong", json!({"a": h(&la), "b": h(&lb)}));
+            }
         }
     }
     idx = 0;
@@ -480,7 +501,7 @@ pub fn run(ctx: &mut Ctx) {
     for (n, ok) in r2::selftest() {
         ctx.selftest(&n, ok);
     }
-    ctx.require(&["fp_add", "fp_sub", "fp_mul", "fp_sqr", "fp_double", "fp_triple", "fp_neg", "fp_div2", "fp_inv", "fp_pow", "fp_sqrt_residue", "fp_sqrt_nonresidue", "fp_to_mont", "fp_from_mont", "fn_add", "fn_sub", "fn_mul", "fn_pow", "fn_inv", "u256_primitives", "fp_mont_mul_carry_out_of_2^512", "fp_mul_product=0", "fp_mul_product=1", "fp_mul_product=m-1", "table_entry", "single_byte_scalar", "P_ne_Q", "P_eq_Q_same_repr", "P_eq_Q_diff_Z", "P_eq_negQ_same_Z", "P_eq_negQ_diff_Z", "infinity_canonical", "infinity_arbitrary_XY", "k=0", "k=n", "k=n+1", "k=n+small", "k=2^256-1", "k=random", "k=sparse_limbs", "k=n+j_sweep", "consecutive_negated_base", "consecutive_same_point_other_Z", "to_affine_point", "predicates", "predicates_offcurve", "from_byte"]);
+    ctx.require(&["fp_add", "fp_sub", "fp_mul", "fp_sqr", "fp_double", "fp_triple", "fp_neg", "fp_div2", "fp_inv", "fp_pow", "fp_sqrt_residue", "fp_sqrt_nonresidue", "fp_to_mont", "fp_from_mont", "fn_add", "fn_sub", "fn_mul", "fn_pow", "fn_inv", "u256_primitives", "u512_primitives", "fp_mont_mul_carry_out_of_2^512", "fp_mul_product=0", "fp_mul_product=1", "fp_mul_product=m-1", "table_entry", "single_byte_scalar", "P_ne_Q", "P_eq_Q_same_repr", "P_eq_Q_diff_Z", "P_eq_negQ_same_Z", "P_eq_negQ_diff_Z", "infinity_canonical", "infinity_arbitrary_XY", "k=0", "k=n", "k=n+1", "k=n+small", "k=2^256-1", "k=random", "k=sparse_limbs", "k=n+j_sweep", "consecutive_negated_base", "consecutive_same_point_other_Z", "to_affine_point", "predicates", "predicates_offcurve", "from_byte"]);
     field_layer(ctx);
     table_layer(ctx);
     group_layer(ctx);
